@@ -149,6 +149,9 @@ pub struct World {
     pub explain: bool,
     /// yield-point control shared with the callbacks registered on `calc`
     pub nest: NestCtl,
+    /// the values (asts) of each session's last result, for `format_result`
+    pub last_asts: BTreeMap<u8, Vec<Rc<smartcalc::SmartCalcAstType>>>,
+    linewise_acc: bool,
 }
 
 /// one inner step of a nested event, as handed to `World::run_nested`
@@ -175,7 +178,7 @@ impl World {
     /// `t0`: instant the clock is frozen at while the calculator is built
     pub fn new(data: &CfgData, salt: u64, t0: i128) -> World {
         clock::freeze(t0);
-        World { calc: SmartCalc::default(), sessions: BTreeMap::new(), cfg: CfgModel::new(data), salt, log: Rc::new(RefCell::new(Vec::new())), allow_unwind: true, explain: false, nest: Rc::new(RefCell::new(NestState::default())) }
+        World { calc: SmartCalc::default(), sessions: BTreeMap::new(), cfg: CfgModel::new(data), salt, log: Rc::new(RefCell::new(Vec::new())), allow_unwind: true, explain: false, nest: Rc::new(RefCell::new(NestState::default())), last_asts: BTreeMap::new(), linewise_acc: false }
     }
 
     pub fn render(&self, text: &TextSpec) -> Vec<String> {
@@ -200,7 +203,26 @@ impl World {
         let session = match self.sessions.get_mut(&client) { Some(s) => s, None => panic!("harness: client {} has no session", client) };
         session.set_text(text.to_string());
         let session = &*session;
-        clock::with_clock(clk, explain, || observe_call(|| project_result!(calc.execute_session(session))))
+        let stash: RefCell<Vec<Rc<smartcalc::SmartCalcAstType>>> = RefCell::new(Vec::new());
+        let r = clock::with_clock(clk, explain, || observe_call(|| {
+            let res = calc.execute_session(session);
+            for l in res.lines.iter().flatten() { if let Ok(v) = &l.result { stash.borrow_mut().push(v.ast.clone()); } }
+            project_result!(res)
+        }));
+        if self.linewise_acc { self.last_asts.entry(client).or_default().extend(stash.into_inner()); } else { self.last_asts.insert(client, stash.into_inner()); }
+        r
+    }
+
+    /// calc.format_result(&session, ast) for every value of the session's last result
+    pub fn session_format(&self, client: u8, clk: &ClockScript) -> Result<Vec<String>, PanicInfo> {
+        let calc = &self.calc;
+        let session = match self.sessions.get(&client) { Some(s) => s, None => return Ok(vec![]) };
+        let asts = self.last_asts.get(&client).cloned().unwrap_or_default();
+        let (r, _) = clock::with_clock(clk, false, || crate::obs::guarded(|| std::panic::catch_unwind(std::panic::AssertUnwindSafe(|| asts.iter().map(|a| calc.format_result(session, a.clone())).collect::<Vec<String>>()))));
+        match r {
+            Ok(v) => Ok(v),
+            Err(_) => { let _ = clock::drain_after_unwind(); Err(crate::obs::take_last_panic().unwrap_or(PanicInfo { msg: "?".into(), loc: "?".into(), func: "?".into() })) }
+        }
     }
 
     pub fn session_set_language(&mut self, client: u8, lang: &str) {
@@ -220,13 +242,16 @@ impl World {
     pub fn session_text_linewise(&mut self, client: u8, text: &str, clk: &ClockScript) -> CallObs {
         let mut all: Vec<LineObs> = Vec::new();
         let mut status = true;
+        self.last_asts.insert(client, Vec::new());
+        self.linewise_acc = true;
         for piece in split_lines(text) {
             let (o, _) = self.session_text(client, &piece, clk);
             match o {
                 CallObs::Returned { status: st, lines } => { status &= st; all.extend(lines); }
-                CallObs::Unwound(p) => return CallObs::Unwound(p),
+                CallObs::Unwound(p) => { self.linewise_acc = false; return CallObs::Unwound(p); }
             }
         }
+        self.linewise_acc = false;
         CallObs::Returned { status, lines: all }
     }
 
